@@ -344,6 +344,47 @@ impl Api {
                 });
                 std::mem::forget(outer);
                 self.h.insert(l.to_string(), H::P); ok() }
+            ["laterouter", l, trig, s, sel, k] => { fresh!(l); let (trig, s, sel, k) = (need!(self.s(trig)), need!(self.s(s)), need!(num(sel)), need!(num(k)));
+                // a router built (and one of its routes listened to) by the handler of another stream's first event, possibly
+                // after its input was visited in that transaction
+                let log = self.log.clone(); let name = l.to_string(); let ctx = self.ctx.clone();
+                let keep: Arc<Mutex<Vec<(Arc<Router<i64, i64>>, Listener)>>> = Arc::new(Mutex::new(vec![]));
+                let outer = trig.once().listen(move |_k: &i64| {
+                    let r = Arc::new(ctx.new_router(&s, move |v: &i64| route_keys(sel, *v)));
+                    let (log, name) = (log.clone(), name.clone());
+                    let li = r.filter_matches(&k).listen(move |v: &i64| log.lock().unwrap().push((name.clone(), *v)));
+                    keep.lock().unwrap().push((r, li));
+                });
+                std::mem::forget(outer);
+                self.h.insert(l.to_string(), H::P); ok() }
+            ["switchlatecs", x, s, base, op] => { fresh!(x); let (s, base, op) = (need!(self.s(s)), need!(self.s(base)), need!(num(op)));
+                // as `switchlatec`, but every cell built on demand contains a switch of its own (over a constant cell holding the
+                // freshly built stream): its set-up is still queued when `switch_c` visits the new cell
+                let quiet: Stream<i64> = self.ctx.new_stream();
+                let deps = vec![base.to_dep(), quiet.to_dep()];
+                let ctx = self.ctx.clone();
+                let sc: Stream<Cell<i64>> = s.map(lambda1(move |k: &i64| { let k = *k;
+                    let inner = base.or_else(&quiet).map(move |v: &i64| f2(op, *v, k));
+                    Cell::switch_s(&ctx.new_cell(inner)).hold(k) }, deps));
+                let cc = sc.hold(self.ctx.new_cell(0));
+                self.h.insert(x.to_string(), H::C(Cell::switch_c(&cc))); ok() }
+            ["lateloop2", l, trig1, trig2, s] => { fresh!(l); let (trig1, trig2, s) = (need!(self.s(trig1)), need!(self.s(trig2)), need!(self.s(s)));
+                // a StreamLoop created (and used: `loop.or_else(trig1)`, listened to) by one handler and closed onto `s` by a later
+                // handler of the same transaction (corpus only: `trig2` must fire, later, in the transaction of `trig1`'s first event)
+                let log = self.log.clone(); let name = l.to_string(); let ctx = self.ctx.clone();
+                let slot: Arc<Mutex<Option<StreamLoop<i64>>>> = Arc::new(Mutex::new(None));
+                let keep: Arc<Mutex<Vec<Listener>>> = Arc::new(Mutex::new(vec![]));
+                let (slot1, t1) = (slot.clone(), trig1.clone());
+                let h1 = trig1.once().listen(move |_k: &i64| {
+                    let sl: StreamLoop<i64> = ctx.new_stream_loop();
+                    let n = sl.stream().or_else(&t1);
+                    let (log, name) = (log.clone(), name.clone());
+                    keep.lock().unwrap().push(n.listen(move |v: &i64| log.lock().unwrap().push((name.clone(), *v))));
+                    *slot1.lock().unwrap() = Some(sl);
+                });
+                let h2 = trig2.once().listen(move |_k: &i64| { if let Some(sl) = slot.lock().unwrap().take() { sl.loop_(&s); std::mem::forget(sl); } });
+                std::mem::forget(h1); std::mem::forget(h2);
+                self.h.insert(l.to_string(), H::P); ok() }
             ["leafdrop", l, trig, s, kind] => { fresh!(l); let (trig, s, kind) = (need!(self.s(trig)), need!(self.s(s)), need!(num(kind)));
                 // an unobserved primitive on `s` whose only handle is dropped by the handler of another stream's first event,
                 // possibly while its node is already queued for update in that transaction: nothing may happen
